@@ -311,7 +311,6 @@ void Ranges::appendUnique(long start, long end, long step) {
 
     long subStart = start;
     long subEnd = start;
-    long subStep = step;
     long last = start;
     size_t pending = 0; // Track unique value count
 
@@ -362,14 +361,14 @@ void Ranges::appendUnique(long start, long end, long step) {
 
         // Current value is already in range.
         // Add previous values
-        append(subStart, last, subStep);
+        append(subStart, last, step);
         subStart = subEnd + step;
         pending = 0;
     }
 
     // Flush the remaining values
     if (pending > 0) {
-        append(subStart, last, subStep);
+        append(subStart, last, step);
     }
 }
 
